@@ -279,7 +279,8 @@ def main():
     for ddt in ddts: units.append(('upd', 'CPA', ddt, 'float32', 'float64'))
     for tdt in tdts: units.append(('upd', 'CPA', 'uint8', tdt, 'float32'))
     for ddt in ('uint8', 'uint32'): units.append(('upd', 'DPA', ddt, 'float32', 'float32'))
-    for tdt in ('uint8', 'int16'): units.append(('upd', 'DPA', 'uint8', tdt, 'float64'))
+    for tdt in ('uint8', 'int16', 'float16'): units.append(('upd', 'DPA', 'uint8', tdt, 'float64'))
+    units += [('upd', 'DPA', 'uint8', 'float16', 'float32'), ('upd', 'CPA', 'uint8', 'float16', 'float32')]
     for dims in ((3,), (2, 3), (2, 2, 2)): units += [('lay', dims), ('resh', dims)]
     def work(sub, kind, *args):
         if kind == 'cpa': cpa_compute(u, sub, args[0], args[1], args[2], timeout)
